@@ -444,6 +444,11 @@ def box(eng, st, v):
         return z3.Const("func:" + func_key(eng, v), ObjS)
     if isinstance(v, VNoneT):
         return z3.Const("none-obj", ObjS)
+    if isinstance(v, VUnion):
+        e = box(eng, st, v.alts[-1][1])
+        for g, a in reversed(v.alts[:-1]):
+            e = z3.If(g, box(eng, st, a), e)
+        return e
     raise Unsupported(f"cannot box {v}")
 
 
